@@ -27,4 +27,88 @@ fix; before it the statement failed for `"`, `'`, `""`, `'a'`, …). -/
 theorem string_roundtrip (pr : Char → Bool) (v : Str) : strSet pr (strStr pr v) = .ok v :=
   strSet_strStr quotes_table_ok pr v
 
+/-! ### Boolean and the Integer family -/
+
+/-- `'True'` / `'False'` (what `repr(bool)` writes) are in the extracted `toBool` tables -/
+theorem bool_table_ok : toBool (boolStr true) = some true ∧ toBool (boolStr false) = some false := by
+  decide
+
+/-- a saved Boolean reloads to itself, whatever the value of the fresh node -/
+theorem bool_roundtrip (cur b : Bool) : boolSet cur (boolStr b) = .ok b := by
+  unfold boolSet
+  cases b
+  · rw [bool_table_ok.2]
+  · rw [bool_table_ok.1]
+
+/-- `int(repr(v)) == v` for every integer -/
+theorem int_parse_print (v : Int) : pyInt (intStr v) = some v := pyInt_intStr v
+
+/-- Integer / NonNegativeInteger / PositiveInteger: the saved text of a value is accepted exactly
+when `setValue` accepts the value, and gives that value back.  (The bound keeps the text below
+CPython's `int_max_str_digits`.) -/
+theorem int_roundtrip (k : IntClass) (v : Int) (hlen : (intStr v).length ≤ 4000)
+    (hacc : k.setValue v = .ok v) : k.set (intStr v) = .ok v := by
+  unfold IntClass.set
+  have hun : intUnmodelled (intStr v) = false := by
+    unfold intUnmodelled
+    have hasc : (intStr v).any (fun c => decide (128 ≤ c.toNat)) = false := by
+      rw [List.any_eq_false]
+      intro c hc
+      have : c = '-' ∨ IsDig c := by
+        cases v with
+        | ofNat n => right; exact natStr_isDig n c hc
+        | negSucc n =>
+          have hc' : c ∈ '-' :: natStr (n + 1) := hc
+          rcases List.mem_cons.mp hc' with h | h
+          · left; exact h
+          · right; exact natStr_isDig _ c h
+      rcases this with rfl | h
+      · decide
+      · unfold IsDig at h; simp; omega
+    rw [hasc]; simp; omega
+  rw [hun, pyInt_intStr]
+  simpa using hacc
+
+example : (IntClass.pos).setValue 7 = .ok 7 ∧ (intStr 7).length ≤ 4000 := by decide
+example : (IntClass.pos).set (intStr 0) = .error := by decide
+
+/-! ### lists -/
+
+theorem lists_table_ok :
+    Gen.Registry.spaceJoin = [' '] ∧ Gen.Registry.emptyListStr = [' '] ∧ Gen.Registry.commaJoin = [',', ' '] := by
+  decide
+
+/-- Full statement (false on the pinned tree, see the counter-examples below):
+    `∀ k xs, ListClass.set k (ListClass.str k xs) = xs`.
+Proved part, space separated: every list of non-empty blank-free words — including the empty
+list — reloads to itself. -/
+theorem space_list_roundtrip_partial (xs : List Str) (h : ∀ e ∈ xs, Word e) :
+    ListClass.set .space (ListClass.str .space xs) = xs :=
+  space_roundtrip_aux lists_table_ok.1 lists_table_ok.2.1 xs h
+
+/-- Proved part, comma separated: every non-empty list whose elements contain no comma and no
+blank at either end (empty elements and inner blanks are fine) reloads to itself. -/
+theorem comma_list_roundtrip_partial (xs : List Str) (hne : xs ≠ []) (h : ∀ e ∈ xs, CommaElt e) :
+    ListClass.set .comma (ListClass.str .comma xs) = xs :=
+  comma_roundtrip_aux lists_table_ok.2.2 xs hne h
+
+example : ∀ e ∈ ["#a".toList, "b\\".toList], Word e := by unfold Word; decide
+example : ["a b".toList, [], "c".toList] ≠ [] ∧ ∀ e ∈ ["a b".toList, [], "c".toList], CommaElt e := by
+  unfold CommaElt lstrip rstrip; decide
+
+/-- counter-example (known finding C15-list-element-separator) -/
+theorem space_list_counterexample :
+    ListClass.set .space (ListClass.str .space ["a b".toList, "c".toList]) = ["a".toList, "b".toList, "c".toList] := by
+  decide
+
+/-- counter-example (known finding C15-empty-comma-list): the empty list reloads as `[' ']` -/
+theorem comma_list_empty_counterexample :
+    ListClass.set .comma (ListClass.str .comma []) = [" ".toList] := by
+  decide
+
+/-- counter-example (known finding C15-list-element-separator) -/
+theorem comma_list_counterexample :
+    ListClass.set .comma (ListClass.str .comma ["a,b".toList]) = ["a".toList, "b".toList] := by
+  decide
+
 end C15
